@@ -26,8 +26,8 @@ class C10(C01):
 
     def plan(self, tier):
         if tier == "quick":
-            return {"units": 1200, "budget_s": 75, "block": 20}
-        return {"units": 50000, "budget_s": 1500, "block": 40}
+            return {"units": 4000, "budget_s": 90, "block": 20}
+        return {"units": 120000, "budget_s": 1500, "block": 40}
 
     def gen(self, rng, idx, tier):
         base, npre = self.gen_base(rng)
